@@ -497,9 +497,20 @@ Definition mon_C16_rpc (c : cfg) (tr : trace) (r : N) (sh : shape) : list failur
       | None => []
       | Some tid =>
           let halves := delivered_kind tid C2S is_half dl in
-          let n := complete_msgs tid C2S (match halves with [] => None | h :: _ => Some h end) dl in
-          match recvd (Hr r) tr with
-          | _ :: _ => if Nat.leb 2 n then fl 1604 0 (zr r) (Z.of_nat n) else []
+          (* a successful read that returned while the handler was still running (a read still
+             pending when the handler returns is ended with EOF by the return itself), judged on
+             the messages delivered no later than that read's return and the first half-close; with
+             revision zero a delivered frame may still be held by the parked receive loop *)
+          let hx := match find (fun e => match snd e with HExit r' => N.eqb r r' | _ => false end) tr with
+                    | Some e => Some (fst e) | None => None end in
+          let oks := flat_map (fun x => match x with (a, ROk, _, _, _, _, _, _, _) =>
+                        match hx with Some h => if a <? h then [a] else [] | None => [a] end | _ => [] end)
+                      (rets_of (Hr r) ORecv tr) in
+          match oks with
+          | a_r :: _ =>
+              let upto := match halves with [] => a_r | h :: _ => N.min h a_r end in
+              let n := complete_msgs tid C2S (Some upto) dl in
+              if expect_fc c && Nat.leb 2 n then fl 1604 a_r (zr r) (Z.of_nat n) else []
           | [] => []
           end
       end)) ++
